@@ -453,6 +453,8 @@ func xexec(toks []string) string {
 			return "bad-op"
 		}
 		return xlex(xrender(xpieces(ts, nil), toks[1]) + "\n")
+	case "htree", "hval":
+		return xhistExec(toks) // interference histories: ch_expand_hist.go
 	case "tree", "val", "ltree":
 		if len(toks) < 2 {
 			return "bad-op"
@@ -811,6 +813,7 @@ func xgen(g *Gen) {
 	g.Emit("tree g1010 s:a s:= ( ) ; s:a")
 	g.Count("nil-statement-start")
 	xgenSpacing(g)
+	xgenHist(g)
 	g.Emit("tree g10 s:a s:- n:1")
 	g.Emit("tree g1110 s:a s:* s:b s:- n:2")
 	g.Emit("tree g10 s:a s:- n:1.5")
